@@ -1,6 +1,7 @@
 import Driver.Ts
 import Driver.Orswot
 import Driver.Rpc
+import Driver.Node
 /- `dcdriver`: reads a case file on stdin, answers every line with the model's output. -/
 namespace Driver
 
@@ -9,12 +10,14 @@ inductive Dom where
   | ts (s : TsDom.State)
   | orswot (s : OrswotDom.State)
   | rpc (s : RpcDom.State)
+  | node (s : NodeDom.State)
 
 def newDom (name : String) (params : List String) : Dom :=
   match name with
   | "ts" => .ts {}
   | "orswot" => .orswot (OrswotDom.init params)
   | "rpc" => .rpc {}
+  | "node" => .node {}
   | _ => .none
 
 def stepDom (d : Dom) (toks : List String) : Dom × String :=
@@ -23,6 +26,7 @@ def stepDom (d : Dom) (toks : List String) : Dom × String :=
   | .ts s => let (s', o) := TsDom.step s toks; (.ts s', o)
   | .orswot s => let (s', o) := OrswotDom.step s toks; (.orswot s', o)
   | .rpc s => let (s', o) := RpcDom.step s toks; (.rpc s', o)
+  | .node s => let (s', o) := NodeDom.step s toks; (.node s', o)
 
 partial def loop (h : IO.FS.Stream) (out : IO.FS.Stream) (d : Dom) : IO Unit := do
   let line ← h.getLine
